@@ -239,6 +239,55 @@ def gen_case(rng, cid):
     return {"id": cid, "max_attempts": maxa, "paths": paths, "events": events}
 
 
+def gen_resume_case(rng, cid):
+    """Resume chains on one file: consecutive passes whose bodies are cut short, some of the
+    partial answers lost, so that the spoke's checkpoint (RecordProgress) lags or matches the
+    hub's staged length; then clean passes.  Exercises every branch of the offset/staged logic."""
+    size = rng.choice([6, 8, 9, 12, 16, 26])
+    b = bytes((17 * i + rng.randrange(7)) % 256 for i in range(size))
+    maxa = rng.choice([3, 4, 5, 6])
+    D = {"k": "deliver", "keep": -1, "flip": -1, "lost": False, "regfail": False}
+    events = [{"op": "create", "p": 1, "b": b.hex()}]
+    paths = ["metrics/cpu/2026/08/07/14/cpu_%03d.parquet" % rng.randint(1, 9)]
+    if rng.random() < 0.3:
+        paths.append("metrics/cpu/2026/08/07/15/cpu_001.parquet")
+        paths.sort()
+        events[0]["p"] = paths.index([p for p in paths if "/14/" in p][0]) + 1
+    for i in range(rng.randint(2, maxa - 1)):
+        f = dict(D, keep=rng.randint(0, max(1, size // 2)), lost=rng.random() < 0.45)
+        if rng.random() < 0.12:
+            f["flip"] = rng.randint(0, 3)
+        if rng.random() < 0.1:
+            f = dict(f, k="retry", mark=False)
+        run = {"op": "run", "crash": -1, "rec": "ok", "puts": [f]}
+        if rng.random() < 0.12:
+            run["crash"] = rng.randint(4, 8)
+        events.append(run)
+    events += [quiet_run() for _ in range(maxa)]
+    return {"id": cid, "max_attempts": maxa, "paths": paths, "events": events}
+
+
+def gen_big_case(rng, cid, conc):
+    """One reconcile batch with more indexed candidates than one existence-check window: a spoke
+    returning with many lost acknowledgements, hub-side removals of early, middle and late files."""
+    n = min(conc + rng.randint(1, conc // 2 + 8), 90) if conc >= 1 else 40
+    names = set()
+    while len(names) < n:
+        names.add("metrics/cpu/2026/08/%02d/%02d/cpu_%03d.parquet" % (rng.choice([7, 8]), rng.choice([13, 14]), rng.randint(1, 99)))
+    paths = sorted(names)
+    D = {"k": "deliver", "keep": -1, "flip": -1, "lost": True, "regfail": False}
+    events = [{"op": "create", "p": i + 1, "b": bytes([i % 251, (7 * i) % 256]).hex()} for i in range(n)]
+    lost = [dict(D, lost=rng.random() < 0.85) for _ in range(n)]
+    events.append({"op": "run", "crash": -1, "rec": "ok", "puts": lost})
+    for p in sorted(set([rng.randint(1, max(1, min(conc, n) // 2)), rng.randint(1, n), n - rng.randint(0, 2)])):
+        events.append({"op": "hubremove", "p": p})
+    if rng.random() < 0.5:
+        events.append({"op": "hubmark", "p": rng.randint(1, n)})
+    events.append(quiet_run())
+    events.append(quiet_run())
+    return {"id": cid, "max_attempts": 3, "paths": paths, "events": events}
+
+
 def corpus_cases():
     """Hand-written edge cases of every branch of the modelled code (run first)."""
     P = ["metrics/cpu/2026/08/07/14/cpu_001.parquet", "metrics/cpu/2026/08/07/15/cpu_001.parquet"]
@@ -257,6 +306,14 @@ def corpus_cases():
     out.append([{"op": "create", "p": 1, "b": c}, run([dict(D, keep=5)]), run([dict(D, keep=0, lost=True)]), run(), run()])
     # corrupted prefix, resumed, mismatch, stale checkpoint, restart from zero
     out.append([{"op": "create", "p": 1, "b": c}, run([dict(D, keep=4, flip=1)]), run(), run(), run(), run()])
+    # the spoke's checkpoint LAGS the hub's staged prefix: short body acknowledged (checkpoint 3), resume cut short
+    # again and that partial answer lost (hub stages 5, checkpoint stays 3), clean resume from 3
+    out.append([{"op": "create", "p": 1, "b": c}, run([dict(D, keep=3)]), run([dict(D, keep=2, lost=True)]), run(), run(), run()])
+    c26 = bytes(range(100, 126)).hex()
+    out.append([{"op": "create", "p": 1, "b": c26}, run([dict(D, keep=10)]), run([dict(D, keep=15, lost=True)]), run(), run(), run()])
+    # ... and the checkpoint AHEAD of the hub (staging swept / shorter): hub answers the truth
+    out.append([{"op": "create", "p": 1, "b": c}, run([dict(D, keep=5)]), run([dict(D, keep=1, lost=True)]),
+                run([dict(D, keep=0)]), run(), run()])
     # corrupted full body
     out.append([{"op": "create", "p": 1, "b": c}, run([dict(D, flip=7)]), run()])
     # register failure after promote, then redelivery re-registers
@@ -309,7 +366,7 @@ def corpus_cases():
     out.append([{"op": "create", "p": 1, "b": c}, run(), {"op": "hubremove", "p": 1}, {"op": "prune"}, run(rec="lost"), run(rec="drop"), run()])
     cases = []
     for i, evs in enumerate(out):
-        cases.append({"id": 900000 + i, "max_attempts": 3, "paths": P, "events": evs, "corpus": True})
+        cases.append({"id": 900000 + i, "max_attempts": 3 if i % 2 else 5, "paths": P, "events": evs, "corpus": True})
     d = os.path.join(vlib.ROOT, "corpus", PID)
     if os.path.isdir(d):
         for fn in sorted(os.listdir(d)):
@@ -506,6 +563,11 @@ def effective_fault(c):
 def shrink_case(c, fails):
     cur = {k: c[k] for k in ("id", "max_attempts", "paths", "events")}
     budget = 40
+    deadline = time.time() + 150          # shrinking is a convenience: never let it dominate the run
+    inner = fails
+
+    def fails(cand):
+        return time.time() < deadline and inner(cand)
     changed = True
     while changed and budget > 0:
         changed = False
@@ -577,6 +639,15 @@ def translate_params():
     if not rec:
         raise vlib.TieBroken("ledger.go: RecoverInFlight UPDATE not found")
     vals = vlib.go_eval_consts([("DefaultMaxAttempts", "internal/edgesync/agent.go", "DefaultMaxAttempts")])
+    # batching constants of the hub (they size the generator's large-batch family; a constant that
+    # disappears is not a broken tie - the family then uses its default sizes)
+    batching = {}
+    for name, rel in (("confirmExistenceConcurrency", "internal/edgesync/reconcile.go"),
+                      ("MaxReconcileEntriesDefault", "internal/edgesync/reconcile.go")):
+        try:
+            batching[name] = vlib.go_eval_consts([(name, rel, name)])[name]
+        except vlib.TieBroken:
+            batching[name] = None
     body = "(* GENERATED by tools/props/C27.py from the current /repo sources - do not edit *)\n"
     body += "From Coq Require Import List String NArith.\nImport ListNotations.\nOpen Scope string_scope.\n"
     body += "Definition default_max_attempts : N := %d%%N.\n" % vals["DefaultMaxAttempts"]
@@ -584,8 +655,10 @@ def translate_params():
         body += "Definition from_%s : list string := [%s].\n" % (fn, "; ".join('"%s"' % s for s in guards[fn]))
     body += 'Definition recover_to : string := "%s".\nDefinition recover_from : string := "%s".\n' % (
         consts[rec.group(1)], consts[rec.group(2)])
+    for name, v in sorted(batching.items()):
+        body += "(* %s = %s (sizes the large-batch correspondence family) *)\n" % (name, v)
     vlib.write_params("Params_EdgeSync", body)
-    return {"default_max_attempts": vals["DefaultMaxAttempts"], "guards": guards}
+    return {"default_max_attempts": vals["DefaultMaxAttempts"], "guards": guards, "batching": batching}
 
 
 def run(res, tier, seed):
@@ -612,9 +685,12 @@ def run(res, tier, seed):
         ok, _ = vlib.coqchk_stage(res, MODULES)
         if not ok:
             failed.append(("coqchk", "coqchk rejected the compiled development or reported inadmissible axioms"))
-    n = 380 if tier == "quick" else 6000
+    n = 330 if tier == "quick" else 6000
+    conc = (params.get("batching") or {}).get("confirmExistenceConcurrency") or 32
     t1 = time.time()
     cases = corpus_cases() + [gen_case(rng, i) for i in range(n)]
+    cases += [gen_resume_case(rng, 500000 + i) for i in range(45 if tier == "quick" else 600)]
+    cases += [gen_big_case(rng, 600000 + i, conc) for i in range(3 if tier == "quick" else 25)]
     out = run_impl(cases, tier)
     res.stage("impl_harness", t1)
     t2 = time.time()
